@@ -43,6 +43,8 @@ def run(rep, tier, seed):
         ex = exhaustive_scripts(confs[1], 2) + exhaustive_scripts(confs[0], 2)
         rep.cov["bounded_exhaustive_scripts"] = len(ex)
         scripts += ex
+    for i in range(6 if tier == "quick" else 100):
+        scripts.append(sessions.full_dir_session(rng, "root"))
     judged = sessions.run_judged(scripts, flags=("tree",), shards=16)
     for jd in judged:
         f = sc.Findings(jd)
